@@ -17,7 +17,7 @@ one() {
   wt=/var/tmp/vwtV.$$.$id
   git -C /repo worktree add -q --detach $wt HEAD || { echo "| $id | - | worktree failed | |" > $res; return; }
   note=""
-  ( cd $wt && git apply $d/patch.diff 2>/dev/null ) || { ( cd $wt && git apply -C1 $d/patch.diff 2>/dev/null ) && note=" (re-applied with reduced context)"; } || { echo "| $id | - | patch does not apply | |" > $res; git -C /repo worktree remove --force $wt; return; }
+  ( cd $wt && git apply $d/patch.diff 2>/dev/null ) || { ( cd $wt && git apply -C1 $d/patch.diff 2>/dev/null ) && note=" (re-applied with reduced context)"; } || { echo "| $id | - | patch does not apply | |" > $res; echo "DOES-NOT-APPLY $id" >> $snap/out/_missed; git -C /repo worktree remove --force $wt; return; }
   suite=pass; ( cd $wt && go test -vet=off -count=1 $PK >/dev/null 2>&1 ) || suite=FAIL
   demo="-"
   for t in $d/*_test.go; do
@@ -32,6 +32,10 @@ one() {
     pkgs=$(cd $wt && find . -name "zz_seed_*" | xargs -n1 dirname | sort -u)
     ( cd $wt && go test -vet=off -count=1 $pkgs >/dev/null 2>&1 ) && demo="PASSES"
     find $wt -name "zz_seed_*" -delete
+  fi
+  if python3 -c "import json,sys; sys.exit(0 if json.load(open('$d/meta.json')).get('neutralised') else 1)"; then
+    echo "| $id$note | suite $suite, demo $demo | - | no longer a violation on this tree (see meta.json: neutralised) |" > $res
+    git -C /repo worktree remove --force $wt; return
   fi
   checks=$(python3 -c "import json,re; m=json.load(open('$d/meta.json')); print(' '.join(dict.fromkeys(re.findall(r'C\d\d', m['caught_by']))))")
   : > $res; caught=0
